@@ -280,6 +280,24 @@ func PropC13(c *vs.Case, f Factory, kind string) error {
 	} else {
 		c.Class("accepted")
 	}
+	if customize {
+		// the (possibly cached) customize answer is also consulted from the related-object event
+		// handlers, which run on informer goroutines nobody recovers for
+		if sink, ok := env.Ctl.(EventSink); ok {
+			rel := map[string]any{"apiVersion": "v1", "kind": "ConfigMap", "metadata": map[string]any{"name": "rel-ev", "namespace": "ns1", "labels": map[string]any{"rel": "yes"}, "resourceVersion": "1", "uid": "uid-rel-ev"}}
+			rel2 := vs.CopyMap(rel)
+			rel2["metadata"].(map[string]any)["resourceVersion"] = "2"
+			if p := recoverCall(func() {
+				sink.RelatedAdd(u(rel))
+				sink.RelatedUpdate(u(rel), u(rel2))
+				sink.RelatedDelete(u(rel2))
+			}); p != "" {
+				return vs.Violf("C13/panic", "hook customize answered %s; a later related-object event panicked its handler:\n%s", desc, p)
+			}
+			env.W.Queue.Take()
+			env.W.Hooks.Take()
+		}
+	}
 	// one more sync with the valid hook: the process must still be usable
 	scn.Prog.Install(env.W, kind)
 	if t2 := env.SyncFresh(); t2.Panic != "" {
@@ -289,4 +307,15 @@ func PropC13(c *vs.Case, f Factory, kind string) error {
 		return vs.Violf("C17/cache-mutated", "shared cache objects changed during a sync: %v", env.CacheViolations)
 	}
 	return nil
+}
+
+// recoverCall runs f and returns the panic (with a trimmed stack) it raised, if any.
+func recoverCall(f func()) (panicked string) {
+	defer func() {
+		if p := recover(); p != nil {
+			panicked = fmt.Sprintf("%v\n%s", p, trimStack(stackNow()))
+		}
+	}()
+	f()
+	return ""
 }
